@@ -973,7 +973,6 @@ func returnsFresh(fn *ssa.Function, depth int) bool {
 	return any
 }
 
-
 // cmapWrapper: fn takes a *ConcurrentMap parameter (index mi) and a key parameter (index ki) and its only use of the map
 // is one keyed method call M(map, key): a typed getter or the like. Returns the parameter indexes and M.
 func (c *C) cmapWrapper(fn *ssa.Function) (mi, ki int, meth string, ok bool) {
